@@ -3,4 +3,4 @@ From Verif Require Import StropInst.
 Require Extraction ExtrOcamlBasic.
 Extraction Language OCaml.
 Extraction "model.ml" strop_lang stage_encode stage_keyword stage_pattern reserved_lang pattern_lang
-  valid_ident und_reserved strop_shared strop_sel sel_encode sel_keyword sel_pattern reserved_sel pattern_sel strop_sel_pipeline.
+  valid_ident und_reserved strop_shared strop_sel sel_encode sel_keyword sel_pattern reserved_sel pattern_sel strop_sel_pipeline strop_aff.
